@@ -317,6 +317,7 @@ def trees(spec, rng, counters, digests, violations, samples):
         readable = [l for l in locs if l["group"] == "leaf"] + [l for l in locs if l["group"] in ("n", "l", "o")]
         term = tg.deferred_term(readable, rng.randrange(2, 7))
         try:
+            sh.guard_literals(term)
             sh.eval(term)       # guarded dry run (a tower of powers would never return)
         except Discard:
             counters["trees_skipped_too_big"] = counters.get("trees_skipped_too_big", 0) + 1
